@@ -188,12 +188,6 @@ def SmallList.allocResult (l : SmallList) (i : Nat) (c : Chunk) (rest : List Nat
   { l with chunks := l.chunks.set i { c with capacity := c.capacity - 1, free := rest },
            cap := l.cap - 1, allocChunk := c.base }
 
-/-- state after `deallocate(p)` pushed the node index of `p` onto the free chain of chunk `c` at index `i` -/
-def SmallList.deallocResult (l : SmallList) (i : Nat) (c : Chunk) (p : Nat) : SmallList :=
-  { l with chunks := l.chunks.set i
-             { c with capacity := c.capacity + 1, free := (p - (c.base + chunkOff)) / l.ns :: c.free },
-           cap := l.cap + 1, deallocChunk := c.base }
-
 theorem allocate_shape (l l' : SmallList) (p : Nat) (h : l.allocate = some (l', p)) :
     ∃ i c idx rest, l.chunks[i]? = some c ∧ c.free = idx :: rest ∧ l' = l.allocResult i c rest := by
   unfold SmallList.allocate at h
@@ -211,7 +205,7 @@ theorem allocate_shape (l l' : SmallList) (p : Nat) (h : l.allocate = some (l', 
         exact ⟨i, c, idx, rest, hc, hfree, h.1.symm⟩
 
 theorem findChunkRange_go_fromAt (l : SmallList) (p m : Nat) :
-    ∀ fuel f b j, SmallList.findChunkRange.go l p m fuel f b = some j → l.fromAt j p = true := by
+    ∀ fuel f b j, SmallList.findChunkRange.go l p m fuel f b = .found j → l.fromAt j p = true := by
   intro fuel
   induction fuel with
   | zero => intro f b j h; simp [SmallList.findChunkRange.go] at h
@@ -220,35 +214,79 @@ theorem findChunkRange_go_fromAt (l : SmallList) (p m : Nat) :
     unfold SmallList.findChunkRange.go at h
     split at h
     · rename_i hf
-      simp only [Option.some.injEq] at h; subst h; exact hf
+      simp only [ChunkSearch.found.injEq] at h; subst h; exact hf
     · split at h
       · rename_i hb
-        simp only [Option.some.injEq] at h; subst h; exact hb
+        simp only [ChunkSearch.found.injEq] at h; subst h; exact hb
       · simp only at h
         split at h
         · exact absurd h (by simp)
         · exact ih _ _ _ h
 
+/-- the two-cursor search **terminates**: started inside the ring it never runs out of fuel (each round moves the
+forward cursor one position further and the loop ends at the latest when that cursor reaches the proxy) -/
+theorem findChunkRange_go_terminates (l : SmallList) (p m : Nat) (_hm : 0 < m) :
+    ∀ fuel f b, f < m → m - f < fuel → SmallList.findChunkRange.go l p m fuel f b ≠ .hang := by
+  intro fuel
+  induction fuel with
+  | zero => intro f b _ h; omega
+  | succ fuel ih =>
+    intro f b hf hfuel
+    unfold SmallList.findChunkRange.go
+    split
+    · simp
+    · split
+      · simp
+      · simp only
+        split
+        · simp
+        · rename_i hcond
+          have hf' : (f + 1) % m ≠ 0 := by
+            intro h0; apply hcond; simp [h0]
+          have hlt : f + 1 < m := by
+            rcases Nat.lt_or_ge (f + 1) m with h | h
+            · exact h
+            · have : f + 1 = m := by omega
+              rw [this, Nat.mod_self] at hf'; exact absurd rfl hf'
+          rw [Nat.mod_eq_of_lt hlt]
+          exact ih _ _ hlt (by omega)
+
 /-- `find_chunk_impl(node)` only ever answers with a chunk whose node area contains the pointer -/
-theorem findChunk_fromAt (l : SmallList) (p j : Nat) (h : l.findChunk p = some (some j)) : l.fromAt j p = true := by
+theorem findChunk_fromAt (l : SmallList) (p j : Nat) (h : l.findChunk p = .found j) : l.fromAt j p = true := by
   unfold SmallList.findChunk at h
   simp only at h
   split at h
   · rename_i d a _ _
     split at h
     · rename_i hd
-      simp only [Option.some.injEq] at h; subst h; exact hd
+      simp only [ChunkSearch.found.injEq] at h; subst h; exact hd
     · split at h
       · rename_i ha
-        simp only [Option.some.injEq] at h; subst h; exact ha
+        simp only [ChunkSearch.found.injEq] at h; subst h; exact ha
       · split at h
-        · simp only [Option.some.injEq] at h
-          exact findChunkRange_go_fromAt _ _ _ _ _ _ _ h
+        · exact findChunkRange_go_fromAt _ _ _ _ _ _ _ h
         · split at h
-          · simp only [Option.some.injEq] at h
-            exact findChunkRange_go_fromAt _ _ _ _ _ _ _ h
+          · exact findChunkRange_go_fromAt _ _ _ _ _ _ _ h
           · exact absurd h (by simp)
   · exact absurd h (by simp)
+
+/-- `find_chunk_impl(node)` terminates in every state -/
+theorem findChunk_terminates (l : SmallList) (p : Nat) : l.findChunk p ≠ .hang := by
+  unfold SmallList.findChunk
+  simp only
+  split
+  · split
+    · simp
+    · split
+      · simp
+      · split
+        · unfold SmallList.findChunkRange
+          exact findChunkRange_go_terminates l p _ (by omega) _ _ _ (Nat.mod_lt _ (by omega)) (by omega)
+        · split
+          · unfold SmallList.findChunkRange
+            exact findChunkRange_go_terminates l p _ (by omega) _ _ _ (Nat.mod_lt _ (by omega)) (by omega)
+          · simp
+  · simp
 
 theorem fromAt_succ (l : SmallList) (i p : Nat) (c : Chunk) (hc : l.chunks[i]? = some c)
     (h : l.fromAt (i + 1) p = true) : c.base + chunkOff ≤ p ∧ p < c.base + chunkOff + c.noNodes * l.ns := by
@@ -264,6 +302,7 @@ theorem deallocate_shape (cfg : Cfg) (l l' : SmallList) (p : Nat) (h : l.dealloc
       (cfg.ptrCheck = true → cfg.dblDealloc = true → (p - (c.base + chunkOff)) / l.ns ∉ c.free) := by
   unfold SmallList.deallocate at h
   split at h
+  · exact absurd h (by simp)
   · exact absurd h (by simp)
   · split at h <;> exact absurd h (by simp)
   · exact absurd h (by simp)
